@@ -27,6 +27,11 @@
 (*     a later read time is a different artifact) and injective (artOf);   *)
 (*     likewise the optic read identity (ridOf / idOf), which does NOT     *)
 (*     depend on the read time;                                            *)
+(*  4b. the whole optic reading at an explicit tick / provenance ref -     *)
+(*     payload, envelope, witness basis and read identity - returns what   *)
+(*     it returned when first asked with the same checkpoints strictly     *)
+(*     BELOW the coordinate (obOf): later commits and checkpoints taken at *)
+(*     or above the coordinate do not affect a historical read;            *)
 (*  5. wire length is a function of the payload (plenOf), query bytes a    *)
 (*     function of (query, vars, resolved tick, state root) (qOf).         *)
 (***************************************************************************)
@@ -34,9 +39,9 @@ EXTENDS Observe, Json, IOUtils
 
 Rec == ndJsonDeserialize(IOEnv.TRACE)
 
-VARIABLES l, hashOf, artOf, cbOf, plenOf, qOf, ridOf, idOf
-memos == <<hashOf, artOf, cbOf, plenOf, qOf, ridOf, idOf>>
-vars  == <<l, known, hist, init, gt, strand, ckpt, hashOf, artOf, cbOf, plenOf, qOf, ridOf, idOf>>
+VARIABLES l, hashOf, artOf, cbOf, plenOf, qOf, ridOf, idOf, obOf
+memos == <<hashOf, artOf, cbOf, plenOf, qOf, ridOf, idOf, obOf>>
+vars  == <<l, known, hist, init, gt, strand, ckpt, hashOf, artOf, cbOf, plenOf, qOf, ridOf, idOf, obOf>>
 
 IsEvent(e) == l <= Len(Rec) /\ Rec[l].event = e /\ l' = l + 1
 
@@ -46,7 +51,7 @@ Agrees(f, k, v) == IF k \in DOMAIN f THEN f[k] = v ELSE TRUE
 Bind(f, k, v)   == IF k \in DOMAIN f THEN f ELSE Ext(f, k, v)
 
 MemoInit == /\ hashOf = EmptyFn /\ artOf = EmptyFn /\ cbOf = EmptyFn /\ plenOf = EmptyFn
-            /\ qOf = EmptyFn /\ ridOf = EmptyFn /\ idOf = EmptyFn
+            /\ qOf = EmptyFn /\ ridOf = EmptyFn /\ idOf = EmptyFn /\ obOf = EmptyFn
 
 Init == l = 1 /\ RtInit /\ MemoInit
 
@@ -54,7 +59,7 @@ TReset ==
   /\ IsEvent("reset")
   /\ known' = {} /\ hist' = EmptyFn /\ init' = EmptyFn /\ gt' = 0 /\ strand' = EmptyFn /\ ckpt' = EmptyFn
   /\ hashOf' = EmptyFn /\ artOf' = EmptyFn /\ cbOf' = EmptyFn /\ plenOf' = EmptyFn
-  /\ qOf' = EmptyFn /\ ridOf' = EmptyFn /\ idOf' = EmptyFn
+  /\ qOf' = EmptyFn /\ ridOf' = EmptyFn /\ idOf' = EmptyFn /\ obOf' = EmptyFn
 
 TRegister == IsEvent("register") /\ Register(Rec[l].w, Rec[l].root0, Rec[l].commit0) /\ UNCHANGED memos
 
@@ -122,7 +127,7 @@ TObserve ==
         /\ plenOf' = IF rd.ok /\ q.bounded THEN Bind(plenOf, res.pd, res.plen) ELSE plenOf
         /\ qOf'    = IF rd.ok /\ q.proj = "query" THEN Bind(qOf, qk, res.qd) ELSE qOf
         /\ cbOf'   = IF hist_req /\ settled THEN Bind(cbOf, q, cb) ELSE cbOf
-        /\ UNCHANGED <<ridOf, idOf>>
+        /\ UNCHANGED <<ridOf, idOf, obOf>>
 
 TOptic ==
   /\ IsEvent("optic")
@@ -133,6 +138,14 @@ TOptic ==
          rd  == x.rd
          idk == [o |-> o, basis |-> x.basis, root |-> rd.root, commit |-> rd.commit, wit |-> rd.wit,
                  plen |-> rd.plen, residual |-> rd.residual]
+         \* the WHOLE logged optic reading at an explicit coordinate is bound to (request, checkpoints strictly
+         \* below the coordinate): commits, passes, forks and checkpoints at or above it must not change it
+         hist_opt == o.at # "frontier" /\ o.focus = "wl" /\ o.ck = "wl" /\ o.w \in known
+         settled  == res.ok \/ res.kind = "LiveTailRequiresReduction"
+         obk == [o |-> o, low |-> IF o.w \in known THEN {c \in ckpt[o.w] : c < o.t} ELSE {}]
+         obv == [ok |-> res.ok, kind |-> res.kind, reason |-> res.reason, basis |-> res.basis, rid |-> res.rid,
+                 ptick |-> res.ptick, pcgt |-> res.pcgt, proot |-> res.proot, pcommit |-> res.pcommit,
+                 wit |-> res.wit, post |-> res.post, plen |-> res.plen, pd |-> res.pd, residual |-> res.residual]
      IN /\ e.fp0 = e.fp1
         /\ ObserveOptic(o, res.plen)
         /\ IF x.kind = "ProvRefMismatch"
@@ -146,6 +159,8 @@ TOptic ==
                    /\ res.basis = x.basis
                    /\ Agrees(ridOf, idk, res.rid) /\ Agrees(idOf, res.rid, idk)
                    /\ Agrees(plenOf, res.pd, res.plen)
+        /\ (hist_opt /\ settled) => Agrees(obOf, obk, obv)
+        /\ obOf'   = IF hist_opt /\ settled THEN Bind(obOf, obk, obv) ELSE obOf
         /\ ridOf'  = IF x.ok THEN Bind(ridOf, idk, res.rid) ELSE ridOf
         /\ idOf'   = IF x.ok THEN Bind(idOf, res.rid, idk) ELSE idOf
         /\ plenOf' = IF x.ok THEN Bind(plenOf, res.pd, res.plen) ELSE plenOf
